@@ -224,3 +224,34 @@ fn query_rejections() {
     kani::cover!(store.used[0] && store.keys[0] == ref_key_u64(index, 2, item));
     core::mem::forget(r);
 }
+
+
+/// The query builder's setters store exactly what they are given: count, budget, oversampling,
+/// and the candidate filter *whatever its content* (an empty filter is still a filter).
+#[kani::proof]
+#[kani::unwind(4)]
+#[kani::stub(alloc::fmt::format, stub_format)]
+fn query_builder_setters() {
+    let r = reader::<Euclidean>(kani::any(), 2);
+    let count: usize = kani::any();
+    let mut q = r.nns(count);
+    assert!(q.count == count && q.search_k.is_none() && q.oversampling.is_none() && q.candidates.is_none());
+    let bits: u64 = kani::any();
+    let bm = RoaringBitmap { bits };
+    let k: usize = kani::any();
+    let o: usize = kani::any();
+    kani::assume(k != 0 && o != 0);
+    q.search_k(NonZeroUsize::new(k).unwrap());
+    q.oversampling(NonZeroUsize::new(o).unwrap());
+    q.candidates(&bm);
+    assert!(q.count == count);
+    assert!(q.search_k.map(NonZeroUsize::get) == Some(k));
+    assert!(q.oversampling.map(NonZeroUsize::get) == Some(o));
+    match q.candidates {
+        Some(c) => assert!(c.bits == bits),
+        None => assert!(false),
+    }
+    kani::cover!(bits == 0);
+    kani::cover!(bits != 0);
+    core::mem::forget(r);
+}
